@@ -271,6 +271,42 @@ def _task_objects(task):
                         t.violation({"kind": "calibrate-mismatch", "calibrator": type(cal).__name__, "order": getattr(cal, "order", None), "got": gk},
                                     {"object_level": True, "calibrator": repr(cal), "query": q}, expected=(wk, want), observed=(gk, got))
             t.nontrivial += 1
+            # the public attributes of a calibrator object say what it does: after order / extrapolate are changed on the object (or on a shallow
+            # copy of it) the object calibrates as the attributes now say.  Queried BEFORE the edit as well, so that nothing stale survives it.
+            if isinstance(cal, Spline) and len(cal.points) >= 2 and not getattr(cal, "_edited", False):
+                import copy as _copy
+                from mc.spec import Spline as _S
+                for new_order, new_ex, how in ((1 - cal.order, cal.extrapolate, "edit"), (cal.order, not cal.extrapolate, "edit"),
+                                               (1 - cal.order, not cal.extrapolate, "copy-then-edit")):
+                    lib2 = calibrators.SplineCalibrator([calibrators.SplinePoint(float(r), float(c)) for r, c in cal.points], order=cal.order,
+                                                        extrapolate=cal.extrapolate)
+                    try:
+                        lib2.calibrate(grid[len(grid) // 2])
+                    except Exception:  # noqa: BLE001
+                        pass
+                    target = _copy.copy(lib2) if how == "copy-then-edit" else lib2
+                    target.order, target.extrapolate = new_order, new_ex
+                    spec2 = _S(cal.points, new_order, new_ex)
+                    for q in grid[:: max(1, len(grid) // 7)]:
+                        t.evals += 1
+                        try:
+                            want, scale = calibrate(spec2, q)
+                            wk = "value"
+                        except RefRaise:
+                            want, scale, wk = None, 0.0, "CalibrationError"
+                        except RefUnspecified:
+                            continue
+                        try:
+                            got, gk = target.calibrate(q), "value"
+                        except CalibrationError:
+                            got, gk = None, "CalibrationError"
+                        except Exception as e:  # noqa: BLE001
+                            got, gk = None, "raised:" + type(e).__name__
+                        ok = wk == gk and (wk != "value" or same_value(want, float(got), tolerant=True, scale=scale))
+                        if not ok:
+                            t.violation({"kind": "calibrate-mismatch", "calibrator": "SplineCalibrator", "after": how, "got": gk},
+                                        {"object_level": True, "calibrator": repr(cal), "query": q, "edited_to": [new_order, new_ex], "how": how},
+                                        expected=(wk, want), observed=(gk, got), note="the object does not calibrate as its (edited) attributes say")
     return t
 
 
